@@ -115,6 +115,11 @@ MUTATIONS: List[Tuple[str, str, Callable[[str], str]]] = [
     ("reserved-type-name", "non-reserved type names", _sub("class Child(Parent):", "class Class(Parent):")),
     ("reserved-prefix-I", "non-reserved type names", lambda t: t.replace("Child", "I_child")),
     ("reserved-member-name", "non-reserved member names", lambda t: t.replace("child_text", "class")),
+    # the reserved names are compared case-insensitively ("to report even if the case is different", parse/_translate.py)
+    ("reserved-member-name-in-another-case", "non-reserved member names", lambda t: t.replace("child_text", "model_Type")),
+    ("reserved-type-name-in-another-case", "non-reserved type names", lambda t: t.replace("Child", "Verification_Error")),
+    ("reserved-constant-name-in-another-case", "non-reserved constant names", lambda t: t.replace("Some_set", "Descend_once")),
+    ("reserved-function-name-in-another-case", "non-reserved function names", lambda t: t.replace("matches_something", "Transform")),
     ("constructor-argument-missing", "constructor arguments match the properties",
      _sub("        items: List[str],\n        optional_text", "        optional_text")),
     ("constructor-argument-extra", "constructor arguments match the properties",
